@@ -7,6 +7,8 @@ mod oracle;
 mod o_sharks;
 mod o_wire;
 mod o_star;
+mod s_ggm;
+mod o_ggm;
 
 fn main() {
   let args: Vec<String> = std::env::args().collect();
@@ -26,6 +28,7 @@ fn main() {
     "adss" => s_star::adss(tier, seed),
     "star" => s_star::star(tier, seed),
     "wire" => s_star::wire(tier, seed),
+    "ggm" => s_ggm::ggm(tier, seed),
     w if w.starts_with("oracle:") => oracle::run(&w[7..], tier, seed),
     _ => {
       eprintln!("unknown stream {}", what);
